@@ -183,7 +183,7 @@ def edgeAt (l : Link) (i j : Nat) : Nat :=
 def ctypeAt (l : Link) (i : Nat) : CType :=
   match l[i]? with
   | some c => c.ctype
-  | none => .X
+  | none => .V
 
 /-- the slots `((i, j), label)` in the iteration order of the two nested loops of `pass_edge` -/
 def slotsFrom : List Crossing → Nat → List ((Nat × Nat) × Nat)
@@ -328,19 +328,18 @@ def seifertCircles (l : Link) : Res (List Path) := do
 /-- body of the `for s in &self.elements` loop of `Braid::closure`; state = (count, bottom_edges, pd_code) -/
 def closureStep (st : Nat × List Nat × List (Nat × Nat × Nat × Nat)) (s : Int) :
     Res (Nat × List Nat × List (Nat × Nat × Nat × Nat)) :=
-  let count := st.1
-  let bottom := st.2.1
-  let pd := st.2.2
   if s.natAbs = 0 then .panic                      -- `s.index() - 1` underflows
   else
     let i := s.natAbs - 1
-    match bottom[i]?, bottom[i + 1]? with
-    | some a, some b =>
-      let c := count
-      let d := count + 1
-      let x := if s > 0 then (a, c, d, b) else (b, a, c, d)
-      .ok (count + 2, (bottom.set i c).set (i + 1) d, pd ++ [x])
-    | _, _ => .panic                               -- index out of bounds
+    match st.2.1[i]? with
+    | none => .panic                               -- index out of bounds
+    | some a =>
+      match st.2.1[i + 1]? with
+      | none => .panic                             -- index out of bounds
+      | some b =>
+        -- (c, d) = (count, count + 1)
+        .ok (st.1 + 2, (st.2.1.set i st.1).set (i + 1) (st.1 + 1),
+             st.2.2 ++ [if s > 0 then (a, st.1, st.1 + 1, b) else (b, a, st.1, st.1 + 1)])
 
 /-- the renaming `*conn.get(&a).unwrap_or(&a)` with `conn = zip(bottom_edges, 0..strands)` -/
 def connRename (bottom : List Nat) (a : Nat) : Nat :=
